@@ -381,6 +381,8 @@ func (e *Env) indexSV(a, i SV, x *Expr) (SV, error) {
 	return SV{}, serr("cannot index %s (sort %s)", x.Args[0], a.T.Sort.Name)
 }
 
+func isNilLit(x *Expr) bool { return x != nil && x.Kind == "id" && x.Name == "nil" }
+
 func isMapSort(s *Sort) bool {
 	return s.Kind == KData && strings.HasPrefix(s.Name, "Map_") && len(s.Fields) == 2
 }
@@ -430,6 +432,12 @@ func (e *Env) evalBin(x *Expr) (SV, error) {
 		}
 		return SV{T: c.Eq(a.T, b.T)}, nil
 	case "==", "!=":
+		// `s == nil` for a Go slice: the nil slice is the zero value of the (arr,len) representation, as in the code's own comparison
+		if isSliceSort(a.T.Sort) && isNilLit(x.Args[1]) {
+			b = SV{T: e.v.tm.ZeroOf(a.T.Sort)}
+		} else if isSliceSort(b.T.Sort) && isNilLit(x.Args[0]) {
+			a = SV{T: e.v.tm.ZeroOf(b.T.Sort)}
+		}
 		if a.T.Sort != b.T.Sort {
 			return SV{}, serr("comparison of different sorts %s and %s in %s", a.T.Sort.Name, b.T.Sort.Name, x)
 		}
